@@ -1287,8 +1287,8 @@ func (client *client) disconnectHandler(dis *packets.Disconnect) *codes.Error {
 		}
 	}
 	client.disconnect = dis
-	// 不发送will message
-	client.cleanWillFlag = true
+	// 不发送will message, unless the client asks for it (Disconnect with Will Message)
+	client.cleanWillFlag = !(client.version == packets.Version5 && dis.Code == codes.DisconnectWithWillMessage)
 	return nil
 }
 
